@@ -170,9 +170,23 @@ impl Scenario for C08Images {
             // systematic walk: every corpus file is a base several times per tier
             Base::Corpus(env.corpus[(idx as usize - idx as usize / 4) % env.corpus.len()].clone())
         } else {
+            // valid generated sets with every notation knob of the generator drawn at random
+            // (classes / objects, templates, COMPONENTS OF, REAL members, recursion, import-heavy
+            // sets, definitions that compile with warnings): all of them valid bases
             let mut cfg = GenCfg::default_cfg();
             cfg.modules = (1, 3);
             cfg.assigns = (1, 12);
+            cfg.classes = w.chance(1, 2);
+            cfg.components_of = w.chance(1, 2);
+            cfg.real_components = w.chance(1, 2);
+            cfg.recursion_bias = w.chance(1, 3);
+            cfg.value_import_bias = w.chance(1, 3);
+            cfg.intra_shared_enumerals = w.chance(1, 2);
+            cfg.warnful = w.chance(1, 3);
+            cfg.echo_inner_names = w.chance(1, 3);
+            if cfg.value_import_bias {
+                cfg.modules = (3, 4);
+            }
             Base::Text(gen::generate(&mut w, &cfg).concat())
         };
         let other = if !env.corpus.is_empty() { Some(Base::Corpus(w.pick(&env.corpus).clone())) } else { None };
@@ -213,6 +227,8 @@ impl Scenario for C08Images {
                 cases.push(Case { image: Image::Truncate { at }, file: at % 5 == 0 });
             }
         }
+        // the unmodified base first: a valid source must compile without a crash to begin with
+        cases.push(Case { image: Image::Identity, file: f.chance(1, 2) });
         for j in 0..k {
             let image = match f.below(12) {
                 0..=4 => {
@@ -285,55 +301,51 @@ impl Scenario for C08Images {
             } else {
                 vec![Src::Literal(text_lossy.clone())]
             };
-            let mut cfg = SimCfg::simple(p.seed ^ ci as u64);
-            cfg.stack_kb = p.stack_kb;
-            cfg.entropy = p.entropy.wrapping_add(ci as u64);
-            // the file is read once per backend: reads #0,#1 belong to the first compilation,
-            // #2,#3 to the second; the same in-flight fault is applied to both
-            cfg.faults = seam.clone().unwrap_or_default();
-            for f in seam.clone().unwrap_or_default() {
-                let mut g = f.clone();
-                g.ord += 2;
-                cfg.faults.push(g);
-            }
             let render = text_lossy.clone();
-            let bes = backends.clone();
-            // contextualize() is only called with `render` when the bytes the seam delivered
-            // are the bytes `render` was computed from (read#2k delivered the expected count)
+            // contextualize() is only called with `render` when the bytes the seam delivered are
+            // the bytes `render` was computed from. Each backend gets a simulation of its own, so
+            // that call ordinals (and with them the in-flight faults) start from zero for both.
             let expect_first: Option<i64> = seam.as_ref().map(|_| match &case.image {
                 Image::Truncate { at } => (*at).min(base.len()) as i64,
                 _ => base.len() as i64,
             });
-            let body: sim::Body<Vec<sut::CompileOut>> = Box::new(move || {
-                let mut v = vec![];
-                for (bi, be) in bes.iter().enumerate() {
+            let mut rs: Vec<sut::CompileOut> = vec![];
+            let mut died = false;
+            for (bi, be) in backends.iter().enumerate() {
+                let mut cfg = SimCfg::simple(p.seed ^ ci as u64 ^ ((bi as u64) << 32));
+                cfg.stack_kb = p.stack_kb;
+                cfg.entropy = p.entropy.wrapping_add(ci as u64 * 2 + bi as u64);
+                cfg.faults = seam.clone().unwrap_or_default();
+                let (be, srcs, render) = (be.clone(), srcs.clone(), render.clone());
+                let body: sim::Body<sut::CompileOut> = Box::new(move || {
                     sim::op_begin("compile+render");
                     let gate = || match expect_first {
                         None => true,
                         Some(exp) => {
-                            // the bi-th compilation's reads are the last two `read` lines of the log
                             let log = shim::log_text();
                             let reads: Vec<i64> = shim::parse_log(&log).iter().filter(|e| e.call == "read").map(|e| e.res).collect();
-                            let _ = bi;
-                            reads.len() >= 2 && reads[reads.len() - 2] == exp && reads[reads.len() - 1] == 0
-                                || (exp == 0 && reads.last() == Some(&0))
+                            (exp > 0 && reads == vec![exp, 0]) || (exp == 0 && reads == vec![0])
                         }
                     };
-                    v.push(sut::compile_to_string_render_gated(be, &srcs, &BuilderPath::default(), &[render.clone()], &gate));
+                    let r = sut::compile_to_string_render_gated(&be, &srcs, &BuilderPath::default(), &[render.clone()], &gate);
                     sim::op_end("compile+render");
+                    r
+                });
+                let (mut results, rep) = sim::run_sim(&cfg, None, root, vec![body]);
+                out.steps += rep.sched.steps + rep.events.len() as u64;
+                if rep.unmodelled > 0 || rep.overflow {
+                    out.harness_error = Some(format!("shim: {} un-modelled calls, overflow={}", rep.unmodelled, rep.overflow));
                 }
-                v
-            });
-            let (mut results, rep) = sim::run_sim(&cfg, None, root, vec![body]);
-            out.steps += rep.sched.steps + rep.events.len() as u64;
-            if rep.unmodelled > 0 || rep.overflow {
-                out.harness_error = Some(format!("shim: {} un-modelled calls, overflow={}", rep.unmodelled, rep.overflow));
+                match results.pop().flatten() {
+                    Some(r) => rs.push(r),
+                    None => died = true,
+                }
             }
             let _ = std::fs::remove_file(&path);
-            let Some(rs) = results.pop().flatten() else {
+            if died {
                 out.harness_error = Some("sim thread died outside catch_unwind".into());
                 continue;
-            };
+            }
             let nontrivial = image != base;
             out.count("images", 1);
             out.count(&format!("image.{}", image_kind(&case.image)), 1);
